@@ -96,7 +96,10 @@ func PEMFile(info Info, data []byte) (Info, error) {
 		if b == nil {
 			break
 		}
-		blockInfos = append(blockInfos, parsePEMBlock(b))
+		// OpenPGP armor is not PEM: it is described by the PGP parsers or not at all
+		if !strings.HasPrefix(b.Type, "PGP ") {
+			blockInfos = append(blockInfos, parsePEMBlock(b))
+		}
 		rest = skipToPEMBlock(rest)
 	}
 
